@@ -4,6 +4,7 @@ CONSTANTS MaxRows = 3
           MaxVal = 1
           P = 2
           DoubleCount = TRUE
+          HashAll = FALSE
           EmitMod = 1000000
 INIT Init
 NEXT Next
